@@ -25,7 +25,7 @@ CONSTANTS NN, Srcs, Snks,
           Edges, MaxW,
           Schemes,   \* subset of {"subtract", "bottleneck"}
           NumPaths,  \* set of num_paths values, None = unbounded
-          Cutoffs    \* set of <<cnum, cden>>
+          Cutoffs    \* set of <<cnum, cden, st>> (st = 1: just above cnum/cden)
 
 None == 1000000
 
@@ -108,7 +108,11 @@ Peel ==
   /\ pc' = "check"
   /\ UNCHANGED <<caller, W0, tptflow, net, scheme, numpaths, cutoff, total>>
 
-LimitReached == counter >= numpaths \/ expl * cutoff[2] >= cutoff[1] * total
+(* a cutoff <<cnum, cden, st>>: the fraction cnum/cden itself (st = 0), or a value just above it (st = 1),
+   which the explained fraction reaches only by exceeding cnum/cden -- "within rounding of the cutoff" is
+   not "reached" *)
+Reached(e) == IF cutoff[3] = 1 THEN e * cutoff[2] > cutoff[1] * total ELSE e * cutoff[2] >= cutoff[1] * total
+LimitReached == counter >= numpaths \/ Reached(expl)
 
 StopLimit ==
   /\ pc = "check" /\ LimitReached
@@ -155,8 +159,8 @@ SumWithinTotal_BottleneckNonConserved == (scheme = "bottleneck" /\ ~IsTPTFlow) =
 (* conserved flow, subtract scheme, no path-count limit: the loop ends only     *)
 (* when the requested fraction is explained                                     *)
 ReachesFraction ==
-  (pc = "done" /\ scheme = "subtract" /\ IsTPTFlow /\ numpaths = None)
-     => expl * cutoff[2] >= cutoff[1] * total
+  (pc = "done" /\ scheme = "subtract" /\ IsTPTFlow /\ numpaths = None /\ total > 0)   \* (no flux: the fraction is 0/0)
+     => Reached(expl)
 
 RespectsNumPaths == Len(paths) <= numpaths /\ counter = Len(paths) /\ Len(fluxes) = Len(paths)
 
@@ -164,12 +168,12 @@ CallerMatrixUntouched == caller = W0
 
 (* no early stop: the loop ends at a limit or when no path is left *)
 StopsForAReason ==
-  pc = "done" => (counter >= numpaths \/ expl * cutoff[2] >= cutoff[1] * total
+  pc = "done" => (counter >= numpaths \/ Reached(expl)
                   \/ ~HasPath(net, S, T))
 (* no path is peeled once a limit has been reached *)
 NoOvershoot ==
   \A k \in 1..(Len(fluxes) - 1) :
-     k < numpaths /\ SumSeq(SubSeq(fluxes, 1, k)) * cutoff[2] < cutoff[1] * total
+     k < numpaths /\ ~Reached(SumSeq(SubSeq(fluxes, 1, k)))
 
 (* supporting facts *)
 ResidualWithinOriginal == Started => (NonNegMat(net) /\ LeqMat(net, W0))
